@@ -1124,6 +1124,11 @@ loop:
 	}
 	close(jobChan)
 	wg.Wait()
+	if s.closed() {
+		// Pending jobs were skipped: don't report the records as sent, so that
+		// the keys go back to the provide queue, which is persisted on Close.
+		return 0, ErrClosed
+	}
 
 	var failedKeys int
 	holdersSum := s.replicationFactor * nKeys
